@@ -742,6 +742,114 @@ theorem okV_prim_of_asBytes {n : Nat} {v : Val} {b : Bytes} (h : asBytes v = som
   | ref r => cases h
   | _ => trivial
 
+/-! ### `reflect.DeepEqual` model never leaves a closed heap -/
+
+def DQ.nd : DQ → Prop
+  | .dangling => False
+  | _ => True
+
+theorem deepList_nd (rec : List (Ref × Ref) → Val → Val → DQ) {n : Nat} :
+    ∀ (xs ys : List Val) (vis : List (Ref × Ref)), okL n xs → okL n ys →
+      (∀ vis a b, okV n a → okV n b → DQ.nd (rec vis a b)) → DQ.nd (deepList rec vis xs ys) := by
+  intro xs
+  induction xs with
+  | nil =>
+    intro ys vis _ _ _
+    cases ys <;> (unfold deepList; trivial)
+  | cons a as ih =>
+    intro ys vis hx hy hrec
+    cases ys with
+    | nil => unfold deepList; trivial
+    | cons b bs =>
+      unfold deepList
+      have h1 := hrec vis a b (hx a List.mem_cons_self) (hy b List.mem_cons_self)
+      cases hr : rec vis a b with
+      | res r vis' =>
+        cases r with
+        | true => exact ih bs vis' (fun v hv => hx v (List.mem_cons_of_mem _ hv)) (fun v hv => hy v (List.mem_cons_of_mem _ hv)) hrec
+        | false => trivial
+      | overflow => trivial
+      | dangling => rw [hr] at h1; exact h1
+
+theorem mapPairs_ok {n : Nat} : ∀ (xs ys : List Entry) (l r : List Val),
+    (∀ e ∈ xs, okV n e.kv ∧ okV n e.val) → (∀ e ∈ ys, okV n e.kv ∧ okV n e.val) → mapPairs xs ys = some (l, r) → okL n l ∧ okL n r := by
+  intro xs
+  induction xs with
+  | nil =>
+    intro ys l r _ _ e
+    unfold mapPairs at e
+    injection e with e; injection e with e1 e2
+    subst e1; subst e2
+    exact ⟨okL_nil _, okL_nil _⟩
+  | cons x xs ih =>
+    intro ys l r hx hy e
+    unfold mapPairs at e
+    split at e
+    · rename_i e' l' r' hget hrec
+      injection e with e; injection e with e1 e2
+      subst e1; subst e2
+      obtain ⟨a, b⟩ := ih ys l' r' (fun e he => hx e (List.mem_cons_of_mem _ he)) hy hrec
+      have hx0 := hx x List.mem_cons_self
+      have hy0 := hy e' (mem_mapGet hget)
+      refine ⟨?_, ?_⟩
+      · intro v hv
+        simp only [List.mem_cons] at hv
+        rcases hv with h | h | h
+        · subst h; exact hx0.1
+        · subst h; exact hx0.2
+        · exact a v h
+      · intro v hv
+        simp only [List.mem_cons] at hv
+        rcases hv with h | h | h
+        · subst h; exact hy0.1
+        · subst h; exact hy0.2
+        · exact b v h
+    · cases e
+
+theorem deepVal_nd {h : Heap} (w : okH h) : ∀ (f : Nat) (vis : List (Ref × Ref)) (a b : Val),
+    okV h.length a → okV h.length b → DQ.nd (deepVal h f vis a b) := by
+  intro f
+  induction f with
+  | zero =>
+    intro vis a b _ _
+    cases a <;> cases b <;> (unfold deepVal; trivial)
+  | succ f ih =>
+    intro vis a b ha hb
+    cases a <;> cases b <;> try (unfold deepVal; trivial)
+    rename_i ra rb
+    unfold deepVal
+    obtain ⟨oa, hoa⟩ := okV_get ha
+    obtain ⟨ob, hob⟩ := okV_get hb
+    rw [hoa, hob]
+    have ka := okH_get w hoa
+    have kb := okH_get w hob
+    cases oa <;> cases ob <;> simp only <;> try trivial
+    · split
+      · trivial
+      · split
+        · trivial
+        · split
+          · trivial
+          · exact deepList_nd _ _ _ _ ka kb (fun vis a b x y => ih vis a b x y)
+    · split
+      · trivial
+      · split
+        · trivial
+        · split
+          · trivial
+          · exact deepList_nd _ _ _ _ ka kb (fun vis a b x y => ih vis a b x y)
+    · split
+      · trivial
+      · split
+        · trivial
+        · split
+          · trivial
+          · split
+            · trivial
+            · rename_i l r hmp
+              obtain ⟨hl, hr⟩ := mapPairs_ok _ _ _ _ ka kb hmp
+              exact deepList_nd _ _ _ _ hl hr (fun vis a b x y => ih vis a b x y)
+
 theorem opEqual_inv (m : M) (w : WF m) : R.inv WF (opEqual m) := by
   unfold opEqual
   refine inv_bind (vsPop_inv w.eval) ?_
@@ -753,11 +861,17 @@ theorem opEqual_inv (m : M) (w : WF m) : R.inv WF (opEqual m) := by
   split
   · exact hp _
   · split
-    · rename_i a b
-      obtain ⟨oa, hoa⟩ := okV_get hl
+    · obtain ⟨oa, hoa⟩ := okV_get hl
       obtain ⟨ob, hob⟩ := okV_get hr
+      have hdq := deepVal_nd w.heap DEEPEQ_LEVELS [] _ _ hl hr
+      dsimp only at hdq
       rw [hoa, hob]
-      cases oa <;> cases ob <;> first | exact hp _ | trivial
+      cases oa <;> cases ob <;> simp only <;> first | exact hp _ | trivial | skip
+      generalize deepVal m.heap DEEPEQ_LEVELS [] _ _ = q at hdq ⊢
+      cases q with
+      | res r vis => exact hp _
+      | overflow => trivial
+      | dangling => exact hdq.elim
     · rename_i a _ _
       obtain ⟨oa, hoa⟩ := okV_get hl
       rw [hoa]
@@ -768,11 +882,46 @@ theorem opEqual_inv (m : M) (w : WF m) : R.inv WF (opEqual m) := by
       exact hp _
     · exact hp _
 
-theorem opIncDec_inv (m : M) (n : Nat) (w : WF m) : R.inv WF (opIncDec m n) := by
-  unfold opIncDec
-  refine inv_bind (popAsIntValue_inv w.eval) ?_
-  intro ⟨x, d⟩ hd
-  refine inv_bind (intResult_inv m.heap.length _) fun v hv => ?_
+theorem okV_ofNI (n : Nat) (v : OntVerif.Model.NeoInt.Val) : okV n (ofNI v) := by
+  cases v <;> trivial
+
+theorem niResult_inv (n : Nat) (r : Except OntVerif.Model.NeoInt.Fault OntVerif.Model.NeoInt.Val) : R.inv (okV n) (niResult r) := by
+  unfold niResult
+  split
+  · exact okV_ofNI _ _
+  · trivial
+
+theorem opUnaryInt_inv (m : M) (n : Nat) (w : WF m) : R.inv WF (opUnaryInt m n) := by
+  unfold opUnaryInt
+  refine inv_bind (vsPop_inv w.eval) ?_
+  intro ⟨x, d⟩ ⟨_, hd⟩
+  refine inv_bind (ofOpt_inv _) fun a _ => ?_
+  refine inv_bind (niResult_inv m.heap.length _) fun v hv => ?_
+  exact pushE_inv m w.alt w.heap hd hv
+
+theorem opBinaryInt_inv (m : M) (n : Nat) (w : WF m) : R.inv WF (opBinaryInt m n) := by
+  unfold opBinaryInt
+  refine inv_bind (vsPop_inv w.eval) ?_
+  intro ⟨x, d⟩ ⟨_, hd⟩
+  refine inv_bind (ofOpt_inv _) fun b _ => ?_
+  refine inv_bind (vsPop_inv hd) ?_
+  intro ⟨y, d⟩ ⟨_, hd⟩
+  refine inv_bind (ofOpt_inv _) fun a _ => ?_
+  refine inv_bind (niResult_inv m.heap.length _) fun v hv => ?_
+  exact pushE_inv m w.alt w.heap hd hv
+
+theorem opWithin_inv (m : M) (w : WF m) : R.inv WF (opWithin m) := by
+  unfold opWithin
+  refine inv_bind (vsPop_inv w.eval) ?_
+  intro ⟨x, d⟩ ⟨_, hd⟩
+  refine inv_bind (ofOpt_inv _) fun b _ => ?_
+  refine inv_bind (vsPop_inv hd) ?_
+  intro ⟨y, d⟩ ⟨_, hd⟩
+  refine inv_bind (ofOpt_inv _) fun a _ => ?_
+  refine inv_bind (vsPop_inv hd) ?_
+  intro ⟨z, d⟩ ⟨_, hd⟩
+  refine inv_bind (ofOpt_inv _) fun c _ => ?_
+  refine inv_bind (niResult_inv m.heap.length _) fun v hv => ?_
   exact pushE_inv m w.alt w.heap hd hv
 
 theorem opNot_inv (m : M) (w : WF m) : R.inv WF (opNot m) := by
@@ -781,23 +930,12 @@ theorem opNot_inv (m : M) (w : WF m) : R.inv WF (opNot m) := by
   intro ⟨x, d⟩ hd
   exact pushE_inv m w.alt w.heap hd trivial
 
-theorem opAddSub_inv (m : M) (n : Nat) (w : WF m) : R.inv WF (opAddSub m n) := by
-  unfold opAddSub
-  refine inv_bind (popAsIntValue_inv w.eval) ?_
+theorem opBoolBin_inv (m : M) (n : Nat) (w : WF m) : R.inv WF (opBoolBin m n) := by
+  unfold opBoolBin
+  refine inv_bind (popAsBool_inv w.eval) ?_
   intro ⟨x, d⟩ hd
-  refine inv_bind (popAsIntValue_inv hd) ?_
+  refine inv_bind (popAsBool_inv hd) ?_
   intro ⟨y, d⟩ hd
-  refine inv_bind (intResult_inv m.heap.length _) fun v hv => ?_
-  exact pushE_inv m w.alt w.heap hd hv
-
-theorem opLtGt_inv (m : M) (n : Nat) (w : WF m) : R.inv WF (opLtGt m n) := by
-  unfold opLtGt
-  refine inv_bind (vsPop_inv w.eval) ?_
-  intro ⟨r, d⟩ ⟨_, hd⟩
-  refine inv_bind (vsPop_inv hd) ?_
-  intro ⟨l, d⟩ ⟨_, hd⟩
-  refine inv_bind (asBigInt_inv _) fun _ _ => ?_
-  refine inv_bind (asBigInt_inv _) fun _ _ => ?_
   exact pushE_inv m w.alt w.heap hd trivial
 
 theorem opArraySize_inv (m : M) (w : WF m) : R.inv WF (opArraySize m) := by
@@ -1114,12 +1252,294 @@ theorem opThrowIfNot_inv (m : M) (w : WF m) : R.inv WF (opThrowIfNot m) := by
 
 
 
+/-! ### SYSCALL: Serialize / Deserialize / Notify on a closed machine -/
+
+open OntVerif.Model.NeoProg in
+theorem allocList_wf (rec : Tree → Heap → Val × Heap)
+    (hrec : ∀ t h, okH h → okH (rec t h).2 ∧ h.length ≤ (rec t h).2.length ∧ okV (rec t h).2.length (rec t h).1) :
+    ∀ (ts : List Tree) (h : Heap), okH h →
+      okH (allocList rec ts h).2 ∧ h.length ≤ (allocList rec ts h).2.length ∧ okL (allocList rec ts h).2.length (allocList rec ts h).1 := by
+  intro ts
+  induction ts with
+  | nil => intro h w; unfold allocList; exact ⟨w, Nat.le_refl _, okL_nil _⟩
+  | cons t ts ih =>
+    intro h w
+    unfold allocList
+    obtain ⟨a1, b1, c1⟩ := hrec t h w
+    generalize rec t h = p at a1 b1 c1
+    obtain ⟨v, h1⟩ := p
+    dsimp only at a1 b1 c1 ⊢
+    obtain ⟨a2, b2, c2⟩ := ih h1 a1
+    generalize allocList rec ts h1 = q at a2 b2 c2
+    obtain ⟨vs, h2⟩ := q
+    dsimp only at a2 b2 c2 ⊢
+    refine ⟨a2, by omega, ?_⟩
+    intro x hx
+    rcases List.mem_cons.mp hx with e | e
+    · subst e; exact okV_mono b2 c1
+    · exact c2 x e
+
+theorem foldl_mapSet_mem {α : Type} (f : α → Entry) : ∀ (l : List α) (acc : List Entry) (y : Entry),
+    y ∈ l.foldl (fun acc a => mapSet (f a) acc) acc → y ∈ acc ∨ ∃ a ∈ l, y = f a := by
+  intro l
+  induction l with
+  | nil => intro acc y h; exact .inl h
+  | cons a l ih =>
+    intro acc y h
+    simp only [List.foldl_cons] at h
+    rcases ih _ _ h with h1 | ⟨b, hb, e⟩
+    · rcases mem_mapSet' h1 with h2 | h2
+      · exact .inr ⟨a, List.mem_cons_self, h2⟩
+      · exact .inl h2
+    · exact .inr ⟨b, List.mem_cons_of_mem _ hb, e⟩
+
+open OntVerif.Model.NeoProg in
+theorem alloc_wf : ∀ (f : Nat) (t : Tree) (h : Heap), okH h →
+    okH (alloc f t h).2 ∧ h.length ≤ (alloc f t h).2.length ∧ okV (alloc f t h).2.length (alloc f t h).1 := by
+  intro f
+  induction f with
+  | zero =>
+    intro t h w
+    cases t <;> (unfold alloc; exact ⟨w, Nat.le_refl _, trivial⟩)
+  | succ f ih =>
+    intro t h w
+    cases t with
+    | bytes b => unfold alloc; exact ⟨w, Nat.le_refl _, trivial⟩
+    | bool b => unfold alloc; exact ⟨w, Nat.le_refl _, trivial⟩
+    | int z => unfold alloc; exact ⟨w, Nat.le_refl _, trivial⟩
+    | arr ts =>
+      unfold alloc
+      obtain ⟨a, b, c⟩ := allocList_wf (alloc f) ih ts h w
+      generalize allocList (alloc f) ts h = q at a b c
+      obtain ⟨vs, h1⟩ := q
+      dsimp only at a b c ⊢
+      refine ⟨okH_append a (okL_mono (by omega) c), ?_, ?_⟩
+      · simp only [List.length_append, List.length_cons, List.length_nil]; omega
+      · show h1.length < (h1 ++ [Obj.arr vs]).length
+        simp only [List.length_append, List.length_cons, List.length_nil]; omega
+    | struct ts =>
+      unfold alloc
+      obtain ⟨a, b, c⟩ := allocList_wf (alloc f) ih ts h w
+      generalize allocList (alloc f) ts h = q at a b c
+      obtain ⟨vs, h1⟩ := q
+      dsimp only at a b c ⊢
+      refine ⟨okH_append a (okL_mono (by omega) c), ?_, ?_⟩
+      · simp only [List.length_append, List.length_cons, List.length_nil]; omega
+      · show h1.length < (h1 ++ [Obj.struct vs]).length
+        simp only [List.length_append, List.length_cons, List.length_nil]; omega
+    | map es =>
+      unfold alloc
+      obtain ⟨a1, b1, c1⟩ := allocList_wf (alloc f) ih (es.map fun e => e.2.1) h w
+      generalize allocList (alloc f) (es.map fun e => e.2.1) h = q at a1 b1 c1
+      obtain ⟨ks, h1⟩ := q
+      dsimp only at a1 b1 c1 ⊢
+      obtain ⟨a2, b2, c2⟩ := allocList_wf (alloc f) ih (es.map fun e => e.2.2) h1 a1
+      generalize allocList (alloc f) (es.map fun e => e.2.2) h1 = q2 at a2 b2 c2
+      obtain ⟨vs, h2⟩ := q2
+      dsimp only at a2 b2 c2 ⊢
+      refine ⟨okH_append a2 ?_, ?_, ?_⟩
+      · intro y hy
+        rcases foldl_mapSet_mem (fun (x : (Bytes × Tree × Tree) × Val × Val) => (⟨x.1.1, x.2.1, x.2.2⟩ : Entry)) _ _ y hy with h0 | ⟨x, hx, e⟩
+        · cases h0
+        · subst e
+          have hz := (List.of_mem_zip hx).2
+          have hk := (List.of_mem_zip hz).1
+          have hv := (List.of_mem_zip hz).2
+          exact ⟨okV_mono (by omega) (c1 _ hk), okV_mono (by omega) (c2 _ hv)⟩
+      · simp only [List.length_append, List.length_cons, List.length_nil]; omega
+      · show h2.length < (h2 ++ [Obj.map _]).length
+        simp only [List.length_append, List.length_cons, List.length_nil]; omega
+
+theorem convElems_nd (rec : Val → Nat × Nat → R (Nat × Nat)) {n : Nat} :
+    ∀ (vs : List Val) (cl : Nat × Nat), okL n vs → (∀ v cl, okV n v → R.inv (fun _ => True) (rec v cl)) →
+      R.inv (fun _ => True) (convElems rec vs cl) := by
+  intro vs
+  induction vs with
+  | nil => intro cl _ _; unfold convElems; trivial
+  | cons v vs ih =>
+    intro cl hvs hrec
+    obtain ⟨c, l⟩ := cl
+    unfold convElems
+    refine inv_rbind (hrec v _ (hvs v List.mem_cons_self)) ?_
+    intro cl' _
+    exact ih cl' (fun x hx => hvs x (List.mem_cons_of_mem _ hx)) hrec
+
+theorem convHex_nd {h : Heap} (w : okH h) : ∀ (f : Nat) (v : Val) (cl : Nat × Nat), okV h.length v →
+    R.inv (fun _ => True) (convHex h f v cl) := by
+  intro f
+  induction f with
+  | zero => intro v cl _; unfold convHex; trivial
+  | succ f ih =>
+    intro v cl hv
+    obtain ⟨c, l⟩ := cl
+    unfold convHex
+    split
+    · trivial
+    · split
+      · trivial
+      · cases v with
+        | ref r =>
+          simp only
+          obtain ⟨o, ho⟩ := okV_get hv
+          rw [ho]
+          have ko := okH_get w ho
+          cases o with
+          | arr vs => exact convElems_nd _ vs _ ko (fun v cl hv => ih v cl hv)
+          | struct vs => exact convElems_nd _ vs _ ko (fun v cl hv => ih v cl hv)
+          | map es => trivial
+        | _ => trivial
+
+/-- what `step` needs from its `Serialize` parameter on a closed heap -/
+def SerClosed (serF : Heap → Val → Except VErr Bytes) : Prop :=
+  ∀ h v, okH h → okV h.length v → serF h v ≠ .error .dangling
+
+theorem serList_nd (rec : List Nat → Val → Nat → Except VErr Bytes) (vs : List Val)
+    (hrec : ∀ v ∈ vs, ∀ p s, rec p v s ≠ .error .dangling) (path : List Nat) (i size : Nat) :
+    serList rec path i vs size ≠ .error .dangling := by
+  induction vs generalizing i size with
+  | nil => unfold serList; nofun
+  | cons v vs ih =>
+    unfold serList
+    have h1 := hrec v (List.mem_cons_self) (i :: path) size
+    cases hr : rec (i :: path) v size with
+    | error e =>
+      simp only
+      intro h; injection h with h; subst h; exact h1 hr
+    | ok o =>
+      simp only
+      have h2 := ih (fun v hv => hrec v (List.mem_cons_of_mem _ hv)) (i + 1) (size + o.length)
+      cases hs : serList rec path (i + 1) vs (size + o.length) with
+      | error e =>
+        simp only
+        intro h; injection h with h; subst h; exact h2 hs
+      | ok os => simp only; nofun
+
+theorem chkSize_nd (size : Nat) (out : Bytes) : chkSize size out ≠ .error .dangling := by
+  unfold chkSize; split <;> nofun
+
+open OntVerif.Proofs.NeoVal in
+/-- `VmValue.Serialize` of the model never meets a dangling reference on a closed heap (any detector variant, any valid iteration order) -/
+theorem ser_nd (var : Variant) (perm : Perm) (hv : perm.valid) {h : Heap} (w : okH h) :
+    ∀ (f : Nat) (path : List Nat) (v : Val) (size : Nat), okV h.length v → ser var perm h f path v size ≠ .error .dangling := by
+  intro f
+  induction f with
+  | zero => intro path v size _; unfold ser; nofun
+  | succ f ih =>
+    intro path v size hok
+    unfold ser
+    split
+    · nofun
+    · cases v with
+      | ref r =>
+        simp only
+        obtain ⟨o, ho⟩ := okV_get hok
+        rw [ho]
+        simp only
+        have ko := okH_get w ho
+        have hk : ∀ x ∈ serKids perm path r o, okV h.length x := by
+          intro x hx
+          cases o with
+          | arr vs => exact ko x hx
+          | struct vs => exact ko x hx
+          | map es =>
+            unfold serKids at hx
+            obtain ⟨e, he, hxe⟩ := List.mem_flatMap.mp hx
+            unfold sortedEntries at he
+            have he2 : e ∈ es := ((hv path r es).mem_iff).mp (((sortE_perm _).mem_iff).mp he)
+            simp only [List.mem_cons, List.not_mem_nil, or_false] at hxe
+            rcases hxe with h1 | h1 <;> subst h1
+            · exact (ko e he2).1
+            · exact (ko e he2).2
+        have := serList_nd (ser var perm h f) _ (fun x hx p s => ih p x s (hk x hx)) path 0
+          (size + (tagOf o :: OntVerif.Model.Codec.writeVarUint (countOf o)).length)
+        cases hs : serList (ser var perm h f) path 0 (serKids perm path r o)
+            (size + (tagOf o :: OntVerif.Model.Codec.writeVarUint (countOf o)).length) with
+        | error e => simp only; intro h'; injection h' with h'; subst h'; exact this hs
+        | ok body => simp only; exact chkSize_nd _ _
+      | bytes d => simp only; exact chkSize_nd _ _
+      | bool b => simp only; exact chkSize_nd _ _
+      | int z => simp only; exact chkSize_nd _ _
+
+theorem serialize_closed (var : Variant) (perm : Perm) (hv : perm.valid) : SerClosed (serialize var perm) :=
+  fun _ _ w hok => ser_nd var perm hv w _ _ _ _ hok
+
+theorem sysSerialize_inv (serF : Heap → Val → Except VErr Bytes) (hs : SerClosed serF) (m : M) (w : WF m) :
+    R.inv WF (sysSerialize serF m) := by
+  unfold sysSerialize
+  refine inv_bind (vsPop_inv w.eval) ?_
+  intro ⟨val, d⟩ ⟨hv, hd⟩
+  dsimp only
+  split
+  · trivial
+  · have := hs m.heap val w.heap hv
+    split
+    · refine inv_bind (pushBytes_inv hd _) fun d hd => ?_
+      exact ⟨hd, w.alt, w.heap⟩
+    · trivial
+    · rename_i he; exact absurd he this
+    · trivial
+
+theorem sysDeserialize_inv (m : M) (w : WF m) : R.inv WF (sysDeserialize m) := by
+  unfold sysDeserialize
+  refine inv_bind (popAsBytes_inv w.eval) ?_
+  intro ⟨data, d⟩ hd
+  dsimp only
+  split
+  · trivial
+  · split
+    · rename_i t _ _
+      obtain ⟨a, b, c⟩ := alloc_wf (MAX_COUNT + 2) t m.heap w.heap
+      generalize OntVerif.Model.NeoProg.alloc (MAX_COUNT + 2) t m.heap = q at a b c
+      obtain ⟨v, h⟩ := q
+      dsimp only at a b c ⊢
+      exact pushE_inv { m with heap := h } (okL_mono b w.alt) a (okL_mono b hd) c
+    · trivial
+    · trivial
+    · trivial
+
+theorem sysNotify_inv (m : M) (w : WF m) : R.inv WF (sysNotify m) := by
+  unfold sysNotify
+  refine inv_bind (vsPop_inv w.eval) ?_
+  intro ⟨item, d⟩ ⟨hi, hd⟩
+  refine inv_bind (P := fun _ => True) ?_ ?_
+  · unfold convertHexOk
+    refine inv_rbind (convHex_nd w.heap _ _ _ hi) ?_
+    intro _ _
+    trivial
+  · intro ok _
+    split
+    · exact ⟨hd, w.alt, w.heap⟩
+    · trivial
+
+theorem sysDispatch_inv (serF : Heap → Val → Except VErr Bytes) (hs : SerClosed serF) (m : M) (fb pos : Nat) (w : WF m) :
+    R.inv WF (sysDispatch serF m fb pos) := by
+  unfold sysDispatch
+  split
+  · trivial
+  · refine inv_bind (readBytes_nd _ _ _ _) ?_
+    intro ⟨name, pos'⟩ _
+    dsimp only
+    split
+    · trivial
+    · split
+      · exact sysSerialize_inv serF hs _ ⟨w.eval, w.alt, w.heap⟩
+      · split
+        · exact sysDeserialize_inv _ ⟨w.eval, w.alt, w.heap⟩
+        · split
+          · exact sysNotify_inv _ ⟨w.eval, w.alt, w.heap⟩
+          · trivial
+
+theorem opSyscall_inv (serF : Heap → Val → Except VErr Bytes) (hs : SerClosed serF) (m : M) (w : WF m) :
+    R.inv WF (opSyscall serF m) := by
+  unfold opSyscall
+  split <;> exact sysDispatch_inv serF hs _ _ _ w
+
 theorem inv_ite {α : Type} {P : α → Prop} {c : Prop} [Decidable c] {a b : R α} (ha : R.inv P a) (hb : R.inv P b) :
     R.inv P (if c then a else b) := by
   split <;> assumption
 
 /-- **the closed-heap invariant is preserved by every opcode, and on a closed machine no opcode finds a dangling reference** -/
-theorem step_inv (m : M) (opn : Nat) (w : WF m) : R.inv WF (step m opn) := by
+theorem step_inv (serF : Heap → Val → Except VErr Bytes) (hs : SerClosed serF) (m : M) (opn : Nat) (w : WF m) : R.inv WF (step serF m opn) := by
   unfold step
   refine inv_ite trivial ?_
   refine inv_ite trivial ?_
@@ -1132,6 +1552,7 @@ theorem step_inv (m : M) (opn : Nat) (w : WF m) : R.inv WF (step m opn) := by
   refine inv_ite (opJmp_inv _ _ w) ?_
   refine inv_ite (opDcall_inv _ w) ?_
   refine inv_ite (opRet_inv _ w) ?_
+  refine inv_ite (opSyscall_inv serF hs _ w) ?_
   refine inv_ite (opDupFromAlt_inv _ w) ?_
   refine inv_ite (opToAlt_inv _ w) ?_
   refine inv_ite (opFromAlt_inv _ w) ?_
@@ -1153,10 +1574,11 @@ theorem step_inv (m : M) (opn : Nat) (w : WF m) : R.inv WF (step m opn) := by
   refine inv_ite (opRight_inv _ w) ?_
   refine inv_ite (opSize_inv _ w) ?_
   refine inv_ite (opEqual_inv _ w) ?_
-  refine inv_ite (opIncDec_inv _ _ w) ?_
+  refine inv_ite (opUnaryInt_inv _ _ w) ?_
   refine inv_ite (opNot_inv _ w) ?_
-  refine inv_ite (opAddSub_inv _ _ w) ?_
-  refine inv_ite (opLtGt_inv _ _ w) ?_
+  refine inv_ite (opBoolBin_inv _ _ w) ?_
+  refine inv_ite (opWithin_inv _ w) ?_
+  refine inv_ite (opBinaryInt_inv _ _ w) ?_
   refine inv_ite (opArraySize_inv _ w) ?_
   refine inv_ite (opPack_inv _ w) ?_
   refine inv_ite (opUnpack_inv _ w) ?_
@@ -1177,7 +1599,8 @@ theorem wf_init (code : Bytes) (a b : Bool) : WF { code := code, allowEOF := a, 
   ⟨okL_nil _, okL_nil _, fun _ h => by cases h⟩
 
 /-- a run from a closed machine never meets a dangling reference, and halts in a closed machine -/
-theorem run_inv (n : Nat) (m : M) (w : WF m) : run n m ≠ .dangling ∧ ∀ m', run n m = .halt m' → WF m' := by
+theorem run_inv (serF : Heap → Val → Except VErr Bytes) (hs : SerClosed serF) (n : Nat) (m : M) (w : WF m) :
+    run serF n m ≠ .dangling ∧ ∀ m', run serF n m = .halt m' → WF m' := by
   induction n generalizing m with
   | zero =>
     unfold run
@@ -1196,18 +1619,78 @@ theorem run_inv (n : Nat) (m : M) (w : WF m) : run n m ≠ .dangling ∧ ∀ m',
       · exact ⟨nofun, fun m' e => by injection e with e; subst e; exact w⟩
       · split
         · rename_i op pos _
-          have hs := step_inv { m with pos := pos } op.toNat ⟨w.eval, w.alt, w.heap⟩
+          have hst := step_inv serF hs { m with pos := pos } op.toNat ⟨w.eval, w.alt, w.heap⟩
           split
           · rename_i m' hm
-            rw [hm] at hs
-            exact ih m' hs
+            rw [hm] at hst
+            exact ih m' hst
           · exact ⟨nofun, nofun⟩
           · exact ⟨nofun, nofun⟩
           · exact ⟨nofun, nofun⟩
-          · rename_i hd; rw [hd] at hs; exact hs.elim
+          · rename_i hd; rw [hd] at hst; exact hst.elim
+          · exact ⟨nofun, nofun⟩
           · exact ⟨nofun, nofun⟩
         · exact ⟨nofun, nofun⟩
         · exact ⟨nofun, nofun⟩
         · exact ⟨nofun, nofun⟩
+
+/-! ### the `reflect.DeepEqual` overflow has a witness for every budget -/
+
+/-- two separately built, equal values: struct [array [array [ … ]]], `n` levels each (objects 2i and 2i+1 are level i of the two) -/
+def nestObj (k : Nat) : Obj := if k < 2 then .struct [.ref (k + 2)] else .arr [.ref (k + 2)]
+def nestH (n : Nat) : Heap := (List.range (2 * n)).map nestObj
+
+theorem nestH_get (n k : Nat) (hk : k < 2 * n) : (nestH n)[k]? = some (nestObj k) := by
+  unfold nestH
+  rw [List.getElem?_map, List.getElem?_range hk]
+  rfl
+
+theorem seenPair_false (vis : List (Nat × Nat)) (i : Nat) (hv : ∀ p ∈ vis, p.1 < 2 * i) : seenPair vis (2 * i) (2 * i + 1) = false := by
+  unfold seenPair
+  rw [List.any_eq_false]
+  intro p hp
+  have := hv p hp
+  simp only [Bool.or_eq_true, Bool.and_eq_true, beq_iff_eq, not_or, not_and]
+  constructor
+  · intro h _; rw [h] at this; exact absurd this (Nat.lt_irrefl _)
+  · intro h _; rw [h] at this; exact absurd this (by omega)
+
+theorem deepVal_nest_overflow (n : Nat) : ∀ (f i : Nat) (vis : List (Nat × Nat)), i + f ≤ n → (∀ p ∈ vis, p.1 < 2 * i) →
+    deepVal (nestH n) f vis (.ref (2 * i)) (.ref (2 * i + 1)) = .overflow := by
+  intro f
+  induction f with
+  | zero => intro i vis _ _; unfold deepVal; rfl
+  | succ f ih =>
+    intro i vis hi hv
+    unfold deepVal
+    rw [nestH_get n (2 * i) (by omega), nestH_get n (2 * i + 1) (by omega)]
+    have hrec := ih (i + 1) ((2 * i, 2 * i + 1) :: vis) (by omega) (by
+      intro p hp
+      rcases List.mem_cons.mp hp with e | e
+      · subst e; show 2 * i < 2 * (i + 1); omega
+      · have := hv p e; omega)
+    have e2 : 2 * (i + 1) = 2 * i + 2 := by omega
+    have e3 : 2 * i + 2 + 1 = 2 * i + 1 + 2 := by omega
+    rw [e2, e3] at hrec
+    unfold nestObj
+    by_cases h2 : 2 * i < 2
+    · have h3 : 2 * i + 1 < 2 := by omega
+      simp only [h2, h3, if_true, seenPair_false vis i hv, Bool.false_eq_true, if_false]
+      have : ¬ (2 * i = 2 * i + 1) := by omega
+      simp only [this, if_false, List.length_cons, List.length_nil, ne_eq, not_true_eq_false]
+      unfold deepList
+      rw [hrec]
+    · have h3 : ¬ (2 * i + 1 < 2) := by omega
+      simp only [h2, h3, if_false, seenPair_false vis i hv, Bool.false_eq_true]
+      have : ¬ (2 * i = 2 * i + 1) := by omega
+      simp only [this, if_false, List.length_cons, List.length_nil, ne_eq, not_true_eq_false]
+      unfold deepList
+      rw [hrec]
+
+
+/-- **the witness of the `reflect.DeepEqual` stack overflow at model level**: two separately built values struct [array [array …]] nested
+one level deeper than the budget — for every budget, in particular `DEEPEQ_LEVELS` -/
+theorem deepVal_overflow_witness (L : Nat) : deepVal (nestH (L + 1)) L [] (.ref 0) (.ref 1) = .overflow :=
+  deepVal_nest_overflow (L + 1) L 0 [] (by omega) (by intro p hp; cases hp)
 
 end OntVerif.Proofs.NeoExec
